@@ -55,7 +55,7 @@ const OPT_NONAN: Options = Options::builder().nan_string(None).build_unchecked()
 const OPT_NOINF: Options = Options::builder().inf_string(None).build_unchecked();
 
 crate::harnesses! {
-    /// every NaN / infinity / zero bit pattern of f32 and f64, default options.
+    /// every NaN / infinity bit pattern of f32 and f64 (any payload, any sign), default options.
     /// @prop C15 C09 C17
     /// @feat default radix_format
     /// @fn lexical-write-float::write::WriteFloat::write_float (sign handling, special dispatch)
@@ -66,13 +66,27 @@ crate::harnesses! {
         let b32: u32 = any();
         let b64: u64 = any();
         let o = Options::new();
-        assume((b32 >> 23) & 0xFF == 0xFF || b32 << 1 == 0);
-        assume((b64 >> 52) & 0x7FF == 0x7FF || b64 << 1 == 0);
+        assume((b32 >> 23) & 0xFF == 0xFF);
+        assume((b64 >> 52) & 0x7FF == 0x7FF);
         let r = cmp_special_write_f32(b32, &o, b"NaN", b"inf");
-        vcheck!(matches!(r, Ok(true)), "f32 specials and zeros are written as documented");
+        vcheck!(matches!(r, Ok(true)), "f32 specials are written as documented");
         let r = cmp_special_write_f64(b64, &o, b"NaN", b"inf");
-        vcheck!(matches!(r, Ok(true)), "f64 specials and zeros are written as documented");
+        vcheck!(matches!(r, Ok(true)), "f64 specials are written as documented");
         cover(f32::from_bits(b32).is_nan() && b32 >> 31 == 1);
+    }
+
+    /// signed zeros (the four concrete values): '-0.0' <-> negative zero.
+    /// @prop C15 C08
+    /// @feat default radix_format
+    /// @fn lexical-write-float::write::WriteFloat::write_float (sign of zero)
+    /// @timeout 900
+    #[cfg_attr(kani, kani::unwind(12))]
+    fn write_signed_zeros() {
+        let o = Options::new();
+        vcheck!(matches!(cmp_special_write_f32(0, &o, b"NaN", b"inf"), Ok(true)), "+0.0f32 is written as 0.0");
+        vcheck!(matches!(cmp_special_write_f32(0x8000_0000, &o, b"NaN", b"inf"), Ok(true)), "-0.0f32 is written as -0.0");
+        vcheck!(matches!(cmp_special_write_f64(0, &o, b"NaN", b"inf"), Ok(true)), "+0.0f64 is written as 0.0");
+        vcheck!(matches!(cmp_special_write_f64(1 << 63, &o, b"NaN", b"inf"), Ok(true)), "-0.0f64 is written as -0.0");
     }
 
     /// custom nan / inf strings.
@@ -83,7 +97,7 @@ crate::harnesses! {
     #[cfg_attr(kani, kani::unwind(12))]
     fn write_special_custom_strings() {
         let b32: u32 = any();
-        assume((b32 >> 23) & 0xFF == 0xFF || b32 << 1 == 0);
+        assume((b32 >> 23) & 0xFF == 0xFF);
         vcheck!(OPT_CUSTOM.is_valid(), "custom options are valid");
         let r = cmp_special_write_f32(b32, &OPT_CUSTOM, b"nan", b"Infinity");
         vcheck!(matches!(r, Ok(true)), "f32 specials are written as the configured strings");
